@@ -341,6 +341,8 @@ meta_text = st.one_of(
 _tag_chars = st.characters(codec="utf-8", categories=["L", "N", "P", "S"])
 tag_token = st.one_of(
     st.sampled_from(["a", "tag", "123", "yes", "null", "#x", "a:b", "-", "日本", "é", "'", '"', "1.5", "[x]", "~"]),
+    # tags are separated at the ASCII space only: other white space may sit inside a tag
+    st.sampled_from(["東方\u3000アレンジ", "ＢＭＳ\u00a0remix", "x\u2003y"]),
     st.text(alphabet=_tag_chars, min_size=1, max_size=6),
 )
 keysounds_st = st.one_of(
